@@ -828,6 +828,31 @@ S('silent-udp-recv-slice-early-len', ['C09'], UDPS,
         }
         data[..length].copy_from_slice(buffer);
         Ok((length, endpoint))""", 'guard restated on a local')
+V('c03-154-accept-unknown-version', 'C03', 'src/wire/ieee802154.rs',
+  """        if matches!(packet.frame_version(), FrameVersion::Unknown(_)) {
+            return Err(Error);
+        }
+""",
+  """""", 'R03.9')
+V('c03-154-accept-unknown-src-mode', 'C03', 'src/wire/ieee802154.rs',
+  """        if matches!(packet.dst_addressing_mode(), AddressingMode::Unknown(_))
+            || matches!(packet.src_addressing_mode(), AddressingMode::Unknown(_))
+        {""",
+  """        if matches!(packet.dst_addressing_mode(), AddressingMode::Unknown(_)) {""", 'R03.9')
+V('c03-slaac-multicast-prefix', 'C03', 'src/wire/ndiscoption.rs',
+  """            && !self.prefix.is_multicast()
+""",
+  """""", 'R03.6')
+S('silent-154-new-checked-match', ['C03', 'C07'], 'src/wire/ieee802154.rs',
+  """        if matches!(packet.frame_version(), FrameVersion::Unknown(_)) {
+            return Err(Error);
+        }
+""",
+  """        match packet.frame_version() {
+            FrameVersion::Unknown(_) => return Err(Error),
+            _ => (),
+        }
+""", 'matches! rewritten as match')
 S('silent-tcp-ack-check-swapped-tests', ['C05', 'C01', 'C04'], T,
   """                if ack_number < ack_min {
                     net_debug!(
